@@ -4394,14 +4394,14 @@ size_t ZBUFFv07_decompressContinue(ZBUFFv07_DCtx* zbd,
                     zbd->customMem.customFree(zbd->customMem.opaque, zbd->inBuff);
                     zbd->inBuffSize = blockSize;
                     zbd->inBuff = (char*)zbd->customMem.customAlloc(zbd->customMem.opaque, blockSize);
-                    if (zbd->inBuff == NULL) return ERROR(memory_allocation);
+                    if (zbd->inBuff == NULL) { zbd->inBuffSize = 0; return ERROR(memory_allocation); }   /* no size without a buffer : the context may be used again */
                 }
                 {   size_t const neededOutSize = zbd->fParams.windowSize + blockSize + WILDCOPY_OVERLENGTH * 2;
                     if (zbd->outBuffSize < neededOutSize) {
                         zbd->customMem.customFree(zbd->customMem.opaque, zbd->outBuff);
                         zbd->outBuffSize = neededOutSize;
                         zbd->outBuff = (char*)zbd->customMem.customAlloc(zbd->customMem.opaque, neededOutSize);
-                        if (zbd->outBuff == NULL) return ERROR(memory_allocation);
+                        if (zbd->outBuff == NULL) { zbd->outBuffSize = 0; return ERROR(memory_allocation); }   /* no size without a buffer : the context may be used again */
             }   }   }
             zbd->stage = ZBUFFds_read;
             /* pass-through */
